@@ -58,7 +58,9 @@ Qed.
 Lemma cast_sound_mut :
   (forall T, first_order T = true -> forall d v, pure_whnf v -> ok_out (V T d) (cast_whnf MTyped T v)) /\
   (forall r, first_order_rows r = true -> forall d fs, Forall (fun ft => pure_thunk (snd ft)) fs ->
-     forall fs', wrap_fields MTyped r fs = Some fs' -> Vrows r d fs').
+     forall fs', wrap_fields MTyped r fs = Some fs' -> Vrows r d fs') /\
+  (forall e, first_order_erows e = true -> forall t T', erows_lookup t e = Some (Some T') ->
+     forall d v, pure_whnf v -> ok_out (V T' d) (cast_whnf MTyped T' v)).
 Proof.
   apply ty_rows_ind; simpl; intros; try discriminate.
   - assumption.
@@ -84,9 +86,11 @@ Proof.
     rewrite Forall_forall in H3. apply (H3 ft0 Hin).
   - (* TEnum *)
     destruct v; simpl; auto.
-    destruct (existsb (String.eqb t) tags) eqn:Hex; simpl; auto.
-    exists t. split; [reflexivity|]. apply existsb_exists in Hex.
-    destruct Hex as [x [Hin Heq]]. apply String.eqb_eq in Heq. subst. assumption.
+    + destruct (erows_lookup t e) as [[T'|]|] eqn:Hl; simpl; auto. apply Verows_tag. assumption.
+    + inversion H1; subst.
+      destruct (erows_lookup t e) as [[T'|]|] eqn:Hl; simpl; auto.
+      eapply Verows_variant; [eassumption|].
+      apply wrap_TT; [|assumption]. intros v' Hv'. eapply H; eassumption.
   - (* RNil *) inversion H1; subst. exact I.
   - (* RCons *)
     apply andb_true_iff in H1. destruct H1 as [Hft Hfr].
@@ -96,6 +100,13 @@ Proof.
     + apply wrap_TT; [intros; apply H; assumption|].
       eapply (assoc_Forall pure_thunk); eassumption.
     + eapply H0; eauto.
+  - (* EBare *)
+    destruct (String.eqb t0 t); [discriminate|]. eapply H; eassumption.
+  - (* EArg *)
+    apply andb_true_iff in H1. destruct H1 as [Hft Hfe].
+    destruct (String.eqb t0 t).
+    + inversion H2; subst. apply H; assumption.
+    + eapply H0; eassumption.
 Qed.
 
 (* ------------------------------------------------------------------------------ subtyping *)
@@ -151,9 +162,12 @@ Section Fundamental.
        forall d rho, env_ok G d rho -> Forall (TT (V T d)) (mk_thunks rho es)) /\
     (forall G fs r, has_fields Sg G fs r ->
        forall d rho, env_ok G d rho -> Vrows r d (mk_fields rho fs)) /\
-    (forall G bs T, has_branches Sg G bs T ->
-       forall d rho, env_ok G d rho -> forall t b, assoc t bs = Some b ->
-       forall n, ok_out (V T d) (eval n MTyped rho b)).
+    (forall G r bs T, has_branches Sg G r bs T ->
+       forall d rho, env_ok G d rho ->
+       (forall t x b, find_branch t false bs = Some (x, b) ->
+          forall n, ok_out (V T d) (eval n MTyped rho b)) /\
+       (forall t x b A th, find_branch t true bs = Some (x, b) -> erows_lookup t r = Some (Some A) ->
+          TT (V A d) th -> exists y, x = Some y /\ forall n, ok_out (V T d) (eval n MTyped ((y, th) :: rho) b))).
   Proof.
     apply typing_ind; intros.
     - (* Var *)
@@ -196,23 +210,34 @@ Section Fundamental.
       destruct (Vrows_lookup _ _ _ _ _ Hr H1) as [t [Ha Ht]]. rewrite Ha.
       destruct t as [m' e' rho']. apply (Ht n).
     - (* Tag *)
-      destruct n as [|n]; [exact I|]. simpl. eauto.
+      destruct n as [|n]; [exact I|]. simpl. apply Verows_tag. assumption.
+    - (* Variant *)
+      destruct n as [|n]; [exact I|]. simpl. eapply Verows_variant; [eassumption|].
+      intros n0. simpl. apply H1. assumption.
     - (* Match *)
       destruct n as [|n]; [exact I|]. simpl.
       pose proof (H0 d rho H4 n) as He.
       destruct (eval n MTyped rho e) as [v|e0|]; simpl in *; auto.
-      destruct He as [t [-> Hin]].
-      destruct (assoc t bs) as [b|] eqn:Ha.
-      + eapply H2; eauto.
-      + exfalso. eapply H3; eauto.
+      destruct (H2 d rho H4) as [Hb0 Hb1].
+      destruct (Verows_inv _ _ _ He) as [[t [-> Hl]]|[t [th [A [-> [Hl Ht]]]]]].
+      + destruct (find_branch t false bs) as [[x b]|] eqn:Hf.
+        * eapply Hb0; eassumption.
+        * exfalso. eapply (H3 t None); eassumption.
+      + destruct (find_branch t true bs) as [[x b]|] eqn:Hf.
+        * destruct (Hb1 t x b A th Hf Hl Ht) as [y [-> Hy]]. apply Hy.
+        * exfalso. eapply (H3 t (Some A)); eassumption.
     - (* MatchD *)
       destruct n as [|n]; [exact I|]. simpl.
       pose proof (H0 d0 rho H5 n) as He.
       destruct (eval n MTyped rho e) as [v|e0|]; simpl in *; auto.
-      destruct He as [t [-> Hin]].
-      destruct (assoc t bs) as [b|] eqn:Ha.
-      + eapply H2; eauto.
-      + apply H4. assumption.
+      destruct (H2 d0 rho H5) as [Hb0 Hb1].
+      destruct (Verows_inv _ _ _ He) as [[t [-> Hl]]|[t [th [A [-> [Hl Ht]]]]]].
+      + destruct (find_branch t false bs) as [[x b]|] eqn:Hf.
+        * eapply Hb0; eassumption.
+        * apply H4. assumption.
+      + destruct (find_branch t true bs) as [[x b]|] eqn:Hf.
+        * destruct (Hb1 t x b A th Hf Hl Ht) as [y [-> Hy]]. apply Hy.
+        * apply H4. assumption.
     - (* Prim *)
       destruct n as [|n]; [exact I|]. simpl. eapply HSg. eassumption.
     - (* AnnT *)
@@ -248,11 +273,29 @@ Section Fundamental.
       simpl. split; [reflexivity|]. split.
       + intros n. simpl. apply H0. assumption.
       + apply H2. assumption.
-    - (* branches nil *) discriminate.
-    - (* branches cons *)
-      simpl in H4. destruct (String.eqb t0 t).
-      + inversion H4; subst. apply H0. assumption.
-      + eapply H2; eauto.
+    - (* branches nil *) split; intros; discriminate.
+    - (* branches bare *)
+      destruct (H2 d rho H3) as [Hb0 Hb1]. split.
+      + intros t0 x b0 Hf n. cbn [find_branch] in Hf.
+        revert Hf. destruct (String.eqb t0 t && Bool.eqb false false) eqn:Hq; intros Hf.
+        * inversion Hf; subst. apply H0. assumption.
+        * eapply Hb0; eassumption.
+      + intros t0 x b0 A th Hf Hl Ht. cbn [find_branch] in Hf.
+        revert Hf. destruct (String.eqb t0 t && Bool.eqb true false) eqn:Hq; intros Hf.
+        * simpl in Hq. rewrite andb_false_r in Hq. discriminate.
+        * eapply Hb1; eassumption.
+    - (* branches arg *)
+      destruct (H3 d rho H4) as [Hb0 Hb1]. split.
+      + intros t0 x0 b0 Hf n. cbn [find_branch] in Hf.
+        revert Hf. destruct (String.eqb t0 t && Bool.eqb false true) eqn:Hq; intros Hf.
+        * simpl in Hq. rewrite andb_false_r in Hq. discriminate.
+        * eapply Hb0; eassumption.
+      + intros t0 x0 b0 A0 th Hf Hl Ht. cbn [find_branch] in Hf.
+        revert Hf. destruct (String.eqb t0 t && Bool.eqb true true) eqn:Hq; intros Hf.
+        * inversion Hf; subst. apply andb_true_iff in Hq. destruct Hq as [Hq _].
+          apply String.eqb_eq in Hq. subst. rewrite H in Hl. inversion Hl; subst.
+          exists x. split; [reflexivity|]. intros n. apply H1. apply env_ok_cons; assumption.
+        * eapply Hb1; eassumption.
   Qed.
 End Fundamental.
 
@@ -280,7 +323,14 @@ Qed.
 Lemma pure_deep : forall n v, pure_whnf v -> safe_outcome (force n v).
 Proof.
   induction n as [|n IH]; intros v Hv; [exact I|].
-  destruct v; simpl; auto.
+  destruct v; simpl; auto;
+    try (inversion Hv; subst;
+         match goal with
+         | Hp : pure_thunk ?th |- context [eval_thunk n ?th] =>
+             pose proof (pure_thunk_out th n Hp) as Hq;
+             destruct (eval_thunk n th) as [v'|e'|]; simpl in *; auto;
+             pose proof (IH v' Hq) as Hf; destruct (force n v'); simpl in *; auto
+         end; fail).
   - inversion Hv; subst.
     assert (Hl : safe_outcome (force_list (force n) (eval_thunk n) ts)).
     { clear Hv. induction ts as [|t ts IHt]; simpl; [exact I|].
@@ -302,7 +352,9 @@ Qed.
 Lemma force_safe_mut :
   (forall T d, cands_deep d -> forall v, V T d v -> forall n, safe_outcome (force n v)) /\
   (forall r d, cands_deep d -> forall fs, Vrows r d fs ->
-     forall n, safe_outcome (force_fields (force n) (eval_thunk n) fs)).
+     forall n, safe_outcome (force_fields (force n) (eval_thunk n) fs)) /\
+  (forall e d, cands_deep d -> forall t T, erows_lookup t e = Some (Some T) ->
+     forall v, V T d v -> forall n, safe_outcome (force n v)).
 Proof.
   apply ty_rows_ind; intros.
   - apply pure_deep. assumption.
@@ -323,6 +375,7 @@ Proof.
     destruct v; simpl; auto.
     + exfalso. apply Hbad. reflexivity.
     + exfalso. apply Hbad. reflexivity.
+    + exfalso. apply Hbad. reflexivity.
   - (* TRec *)
     destruct H1 as [fs [-> Hr]]. destruct n as [|n]; [exact I|]. simpl.
     pose proof (H d H0 fs Hr n) as Hl.
@@ -337,7 +390,11 @@ Proof.
       specialize (IHf H4). destruct (force_fields (force n) (eval_thunk n) fs'); simpl in *; auto. }
     destruct (force_fields (force n) (eval_thunk n) fs); simpl in *; auto.
   - (* TEnum *)
-    destruct H0 as [t [-> _]]. destruct n; simpl; exact I.
+    simpl in H1. destruct (Verows_inv _ _ _ H1) as [[t [-> Hl]]|[t [th [A [-> [Hl Ht]]]]]].
+    + destruct n; simpl; exact I.
+    + destruct n as [|n]; [exact I|]. simpl. specialize (Ht n).
+      destruct (eval_thunk n th) as [v'|e'|]; simpl in *; auto.
+      pose proof (H d H0 t A Hl v' Ht n) as Hf. destruct (force n v'); simpl in *; auto.
   - (* TVar *)
     simpl in H0. unfold cands_deep in H.
     destruct (nth_in_or_default n d (fun _ : whnf => False)) as [Hin|Hd].
@@ -356,6 +413,13 @@ Proof.
     pose proof (H d H1 v Ht n) as Hf. destruct (force n v); simpl in *; auto.
     pose proof (H0 d H1 fs' Hr n) as Hl.
     destruct (force_fields (force n) (eval_thunk n) fs'); simpl in *; auto.
+  - (* ENil *) discriminate.
+  - (* EBare *)
+    simpl in H1. destruct (String.eqb t0 t); [discriminate|]. eapply H; eassumption.
+  - (* EArg *)
+    simpl in H2. destruct (String.eqb t0 t).
+    + inversion H2; subst. eapply H; eassumption.
+    + eapply H0; eassumption.
 Qed.
 
 (* ------------------------------------------------------------------------------ type safety *)
